@@ -103,7 +103,11 @@ def _run(c):
         t = sg.Tensor(np.full(c['shape'], 7.0, dtype=dt), requires_grad=c['rg'])
         # numeric arguments also arrive as NumPy float64 scalars (a subclass of float with the same precision), e.g. gain=np.sqrt(2.0)
         args = [np.float64(a) if isinstance(a, float) and c['seed'] % 2 else a for a in c['args']]
-        r = getattr(nn.init, fn)(t, *args)
+        if c['seed'] % 3 == 0:        # the usual idiom: re-initialise inside no_grad (requires_grad must survive)
+            with sg.no_grad():
+                r = getattr(nn.init, fn)(t, *args)
+        else:
+            r = getattr(nn.init, fn)(t, *args)
         ok = (r is t) and list(t.shape) == c['shape'] and t.dtype == dt and t.requires_grad == c['rg']
         return {'cap': list(cap), 'tensors': [t.data.copy()], 'ok': ok}
     finally:
